@@ -408,6 +408,9 @@ func codecValue(val string, d *driver, k int) *big.Int {
 	case "lo": // only the least significant byte set
 		return nil
 	default:
+		if strings.HasPrefix(val, "H:") && len(val) == 6 { // limb patterns around (r-1)/2
+			return limbPattern(new(big.Int).Rsh(new(big.Int).Sub(r, one), 1), val[2:])
+		}
 		if strings.HasPrefix(val, "L:") && len(val) == 6 {
 			v := new(big.Int)
 			for i := 0; i < 4; i++ { // val[2] is the top limb
